@@ -3,6 +3,7 @@
 from __future__ import annotations
 
 import ast
+import copy
 import dataclasses
 import inspect
 from collections import Counter, defaultdict
@@ -130,7 +131,7 @@ class _EvalTransformer(ast.NodeTransformer):
                             ast.Expr(
                                 ast.Call(
                                     ast.Name(id="offdiag", ctx=ast.Load()),
-                                    [node.body[0].value],
+                                    [copy.deepcopy(node.body[0].value)],
                                     [],
                                 )
                             )
@@ -371,9 +372,12 @@ class _FunctionTransformer(ast.NodeTransformer):
         if not isinstance(node.func, ast.Name):
             return self.generic_visit(node)
 
+        # Calls nested in the arguments may be scope functions as well.
+        node = self.generic_visit(node)
+
         # Functions introduced internally, should not be modified.
-        if node.func.id in ["_safe_divide", "_zero_sum"]:
-            return self.generic_visit(node)
+        if node.func.id in ["_safe_divide", "_zero_sum", "Dagger"]:
+            return node
 
         return self._visit_series_argument(node)
 
